@@ -3,7 +3,8 @@
 # verification hooks enabled (-DICINGA2_VERIF).  Incremental (ninja); serialised by flock.
 set -e
 REPO=${VERIF_REPO:-/repo}
-B=${VERIF_BUILD:-/verif/build}/icinga
+HERE=$(cd "$(dirname "$0")/.." && pwd)
+B=${VERIF_ICINGA_BUILD:-${VERIF_BUILD:-$HERE/build}/icinga}
 mkdir -p "$B"
 exec 9>"$B/.lock"
 flock 9
